@@ -4583,6 +4583,43 @@ where
         self.as_triangulation().vertex_coords(v)
     }
 
+    /// Wraps a vertex into the fundamental domain when the triangulation was built with the
+    /// canonicalised toroidal mode (`.toroidal(..)`), so that later insertions are treated like
+    /// the construction input (same UUID and data, coordinates in `[0, period)`).
+    fn canonicalize_vertex_for_topology(
+        &self,
+        vertex: Vertex<K::Scalar, U, D>,
+    ) -> Result<Vertex<K::Scalar, U, D>, InsertionError> {
+        use crate::geometry::traits::coordinate::Coordinate;
+        use crate::topology::traits::global_topology_model::GlobalTopologyModel;
+        use crate::topology::traits::topological_space::ToroidalConstructionMode;
+
+        let topology = self.tri.global_topology;
+        if !matches!(
+            topology,
+            GlobalTopology::Toroidal {
+                mode: ToroidalConstructionMode::Canonicalized,
+                ..
+            }
+        ) {
+            return Ok(vertex);
+        }
+        let mut coords = *vertex.point().coords();
+        topology
+            .model()
+            .canonicalize_point_in_place(&mut coords)
+            .map_err(|error| {
+                InsertionError::Construction(TriangulationConstructionError::GeometricDegeneracy {
+                    message: format!("Failed to canonicalize inserted vertex: {error}"),
+                })
+            })?;
+        Ok(Vertex::new_with_uuid(
+            crate::geometry::point::Point::new(coords),
+            vertex.uuid(),
+            vertex.data,
+        ))
+    }
+
     fn ensure_spatial_index_seeded(&mut self) {
         if self.spatial_index.is_some() {
             return;
@@ -4688,6 +4725,7 @@ where
     where
         K::Scalar: ScalarSummable,
     {
+        let vertex = self.canonicalize_vertex_for_topology(vertex)?;
         self.ensure_spatial_index_seeded();
 
         // Fully delegate to Triangulation layer
@@ -4802,6 +4840,7 @@ where
     where
         K::Scalar: ScalarSummable,
     {
+        let vertex = self.canonicalize_vertex_for_topology(vertex)?;
         self.ensure_spatial_index_seeded();
 
         // Transactional guard: post-steps (flip repair and/or global Delaunay checks) can fail.
